@@ -24,9 +24,20 @@ package control
 // file below the shards' blobstor / write-cache directories and the dump directory (size and
 // hash), the engine's listing with the holding shards, and for every address of the universe
 // the read status and the per-shard object status.
-// Authorised (positive control, run last for every body) => the call must execute (response,
-// state change or dependency call), and bodies chosen to be effective must show their effect,
-// otherwise the negative checks would be vacuous (inconclusive, never a violation).
+// Authorised (positive control, run after the first pass of negatives of every body) => the call
+// must execute (response, state change or dependency call), and bodies chosen to be effective
+// must show their effect, otherwise the negative checks would be vacuous (inconclusive, never a
+// violation).
+//
+// The statement quantifies over every call, whatever the server has served before, so the
+// sequence matters: the harness keeps the credentials (key, signature, signed body) of every
+// authorised request the server under test has already been sent - starting with a correctly
+// signed health check at the beginning of the round, as a monitoring tool sends it - and
+// *replays* them on other bodies and other RPCs (first / latest / random earlier credential,
+// and, right after the positive control of a body, that very credential on the alternative body
+// of the same RPC); a seeded subset of the stateless negative modes is also repeated on the
+// same body right after it was accepted.  The reference judges a replayed credential like any
+// other: the signature does not verify over the bytes of the body it is attached to.
 
 import (
 	"bytes"
@@ -232,6 +243,16 @@ type vf32World struct {
 	otherSet [][]byte
 	unready  *Server // never marked ready, administrators = admins
 	nDump    int
+
+	accepted  []vf32Cred // credentials of the authorised requests already sent to srv, oldest first
+	replaySrc string     // RPC the credential replayed by the last vf32Forge call was accepted on
+}
+
+// vf32Cred is the credential of a request the reference judged authorised and that was sent to
+// the server under test: replay material for later requests.
+type vf32Cred struct {
+	rpc            string
+	key, sig, body []byte
 }
 
 // vf32Park is the channel the write-cache flush scheduler of the current world parks on (the
@@ -770,7 +791,17 @@ var vf32Drivers = map[string]func(w *vf32World, rng *rand.Rand) ([]vf32Variant, 
 var vf32NegModes = []string{
 	"nosig", "emptysig", "wrongkey", "keysubst", "bodyswap", "bodyext", "sigflip", "sigtrunc", "sigempty",
 	"sigzero", "wholereq", "crossempty", "garbagekey", "otheradmins", "strangerkey+adminsig", "unready+wrongkey", "unready+nosig",
+	// credentials of requests this server instance has already been sent under a correct
+	// signature, attached to the current (different) body: the first one of the round (the
+	// monitoring health check), the latest one, a random one
+	"replay-first", "replay-last", "replay-any",
 }
+
+// vf32AfterSuffix marks a mode that is run on a body right after that body was accepted under a
+// correct signature; vf32AfterModes are the stateless modes repeated there (a seeded subset).
+const vf32AfterSuffix = "@after-accept"
+
+var vf32AfterModes = []string{"nosig", "wrongkey", "keysubst", "sigflip", "bodyswap", "bodyext", "crossempty", "strangerkey+adminsig", "sigzero"}
 
 func vf32Body(m vf32Msg) []byte {
 	b, err := m.ReadSignedData(nil)
@@ -782,11 +813,54 @@ func vf32Body(m vf32Msg) []byte {
 
 // vf32Forge builds the request of one credential mode; ok=false when the mode does not apply.
 func vf32Forge(mode string, v vf32Variant, w *vf32World, rng *rand.Rand) (vf32Msg, bool) {
+	mode = strings.TrimSuffix(mode, vf32AfterSuffix)
 	m := v.mk()
 	admin := w.admins[rng.IntN(len(w.admins))]
 	body := vf32Body(m)
 	set := func(key, sig []byte) { m.SetSignature(&ctl.Signature{Key: key, Sign: sig}) }
+	// replay attaches an earlier authorised request's credential to the message as it is
+	replay := func(c vf32Cred) {
+		w.replaySrc = c.rpc
+		set(bytes.Clone(c.key), bytes.Clone(c.sig))
+	}
+	// earlier credentials that were given for other body bytes than the current ones
+	foreign := func() []vf32Cred {
+		var l []vf32Cred
+		for _, c := range w.accepted {
+			if !bytes.Equal(c.body, body) {
+				l = append(l, c)
+			}
+		}
+		return l
+	}
 	switch mode {
+	case "replay-first": // the very first credential the server accepted (the monitoring health check)
+		if len(w.accepted) == 0 || bytes.Equal(w.accepted[0].body, body) {
+			return nil, false
+		}
+		replay(w.accepted[0])
+	case "replay-last":
+		l := foreign()
+		if len(l) == 0 {
+			return nil, false
+		}
+		replay(l[len(l)-1])
+	case "replay-any":
+		l := foreign()
+		if len(l) == 0 {
+			return nil, false
+		}
+		replay(l[rng.IntN(len(l))])
+	case "replay-own": // the credential this body has just been accepted with, on the alternative body of the same RPC
+		if v.alt == nil || len(w.accepted) == 0 {
+			return nil, false
+		}
+		c := w.accepted[len(w.accepted)-1]
+		m = v.alt()
+		if !bytes.Equal(c.body, body) || bytes.Equal(c.body, vf32Body(m)) {
+			return nil, false
+		}
+		replay(c)
 	case "valid", "otheradmins":
 		set(vf32Pub(admin), vf32Sign(admin, body))
 	case "nosig", "unready+nosig":
@@ -976,7 +1050,7 @@ func vf32ErrClass(err error) string {
 func TestVerif_C32_Node(t *testing.T) {
 	r := verifkit.Start(t, "C32", "exploration")
 	defer r.Finish()
-	r.SetRule("storage-node control server: RPC inventory from the generated gRPC service descriptor (unary and streaming) + server interface (reflection); per round a fresh world (real engine, 3 temp shards, 2 with write-cache, ~15 objects; real placement service and replicator over recording sources; recording NodeState/HealthChecker) and a Server with 1-3 seeded administrator keys (sometimes plus non-key entries); every RPC (seeded order) x effective body variant x credential mode (no signature, empty signature, stranger key, admin key with stranger's signature, admin signature over another effective body / extended body / whole request / empty data, flipped / truncated / empty / zero signature, non-key list entry, valid signature by administrators of another server, server not yet ready, correct) goes through the generated handler as wire bytes with a full world snapshot before and after; distinct = (RPC, body variant class, mode, number of admin keys); non-trivial = the same body was then executed under a correct signature and showed its effect")
+	r.SetRule("storage-node control server: RPC inventory from the generated gRPC service descriptor (unary and streaming) + server interface (reflection); per round a fresh world (real engine, 3 temp shards, 2 with write-cache, ~15 objects; real placement service and replicator over recording sources; recording NodeState/HealthChecker) and a Server with 1-3 seeded administrator keys (sometimes plus non-key entries); every RPC (seeded order) x effective body variant x credential mode (no signature, empty signature, stranger key, admin key with stranger's signature, admin signature over another effective body / extended body / whole request / empty data, flipped / truncated / empty / zero signature, non-key list entry, valid signature by administrators of another server, server not yet ready, credential of an earlier authorised request of this server instance - first (a priming health check) / latest / random / the one this body was just accepted with - replayed on this or the alternative body, stateless modes repeated right after the body was accepted, correct) goes through the generated handler as wire bytes with a full world snapshot before and after; distinct = (RPC, body variant class, mode, number of admin keys); non-trivial = the same body was then executed under a correct signature and showed its effect")
 	r.Assume("the engine, placement service and replicator are real; container/netmap sources, NodeState and HealthChecker are recording fakes; the write-cache flush scheduler is parked at hook writecache.sched.handoff and the GC remover interval is 24h so that only requests change the world")
 	r.Assume("the node's own response-signing key is not used as a credential (cmd/neofs-node passes it as an authorised key by configuration)")
 
@@ -1022,9 +1096,51 @@ func TestVerif_C32_Node(t *testing.T) {
 	if r.Counter("node_authorised_effective") == 0 {
 		r.Inconclusive("no positive control showed an effect")
 	}
+	if r.Counter("node_replayed_credential_calls_cross_rpc") == 0 || r.Counter("node_unauthorised_calls_right_after_accept_of_same_body") == 0 {
+		r.Inconclusive("no credential of an earlier authorised request was replayed on another RPC, or no unauthorised request followed the acceptance of its body: the history-dependent part of the check is vacuous")
+	}
+}
+
+// vf32Prime sends the correctly signed health check a monitoring tool sends before anything
+// else happens on a server: from then on the server under test has accepted a credential that
+// the replay modes can attach to other requests.
+func vf32Prime(r *verifkit.Run, w *vf32World, inv []vf32RPC, rng *rand.Rand) {
+	for _, rpc := range inv {
+		if rpc.name != "HealthCheck" || rpc.unary == nil {
+			continue
+		}
+		req := &ctl.HealthCheckRequest{Body: new(ctl.HealthCheckRequest_Body)}
+		admin := w.admins[rng.IntN(len(w.admins))]
+		body := vf32Body(req)
+		req.SetSignature(&ctl.Signature{Key: vf32Pub(admin), Sign: vf32Sign(admin, body)})
+		if !vf32RefAuthorised(w.adminSet, req.GetSignature().GetKey(), req.GetSignature().GetSign(), body) {
+			r.Inconclusive("harness: the priming health check is not authorised by the reference")
+			return
+		}
+		wire, err := proto.Marshal(req)
+		if err != nil {
+			r.Inconclusive("harness: marshal priming health check: " + err.Error())
+			return
+		}
+		var responded bool
+		var callErr error
+		if r.Guard(map[string]any{"server": "node", "rpc": rpc.name, "mode": "priming health check", "wire": hex.EncodeToString(wire)}, func() { responded, callErr = rpc.call(w.srv, wire) }) {
+			return
+		}
+		r.Eval(1)
+		if callErr != nil || !responded {
+			r.Inconclusive(fmt.Sprintf("the correctly signed priming health check was not served (%v): replay modes would start without an accepted credential", callErr))
+			return
+		}
+		w.accepted = append(w.accepted, vf32Cred{rpc: rpc.name, key: req.GetSignature().GetKey(), sig: req.GetSignature().GetSign(), body: body})
+		r.Count("node_priming_health_checks_served", 1)
+		return
+	}
+	r.Count("node_rounds_without_priming_health_check", 1)
 }
 
 func vf32Round(r *verifkit.Run, w *vf32World, inv []vf32RPC, rng *rand.Rand, round int) {
+	vf32Prime(r, w, inv, rng)
 	for _, mi := range rng.Perm(len(inv)) {
 		rpc := inv[mi]
 		drv, ok := vf32Drivers[rpc.name]
@@ -1040,9 +1156,16 @@ func vf32Round(r *verifkit.Run, w *vf32World, inv []vf32RPC, rng *rand.Rand, rou
 		for _, v := range variants {
 			modes := append([]string(nil), vf32NegModes...)
 			rng.Shuffle(len(modes), func(i, j int) { modes[i], modes[j] = modes[j], modes[i] })
-			modes = append(modes, "valid")
+			// positive control, then: its credential on the alternative body, and a seeded
+			// subset of the stateless modes again on the body that has just been accepted
+			modes = append(modes, "valid", "replay-own")
+			for _, i := range rng.Perm(len(vf32AfterModes))[:2] {
+				modes = append(modes, vf32AfterModes[i]+vf32AfterSuffix)
+			}
 			var pending []string
+			controlled := false // the positive control of this body has been run and showed its effect
 			for _, md := range modes {
+				w.replaySrc = ""
 				req, ok := vf32Forge(md, v, w, rng)
 				if !ok {
 					r.Count("node_mode_not_applicable", 1)
@@ -1075,7 +1198,10 @@ func vf32Round(r *verifkit.Run, w *vf32World, inv []vf32RPC, rng *rand.Rand, rou
 						break
 					}
 				}
-				desc := map[string]any{"server": "node", "round": round, "rpc": rpc.name, "variant": v.name, "mode": md, "admins": len(w.admins), "garbage_entries": len(w.garbage), "wire": hex.EncodeToString(wire)}
+				desc := map[string]any{"server": "node", "round": round, "rpc": rpc.name, "variant": v.name, "mode": md, "admins": len(w.admins), "garbage_entries": len(w.garbage), "wire": hex.EncodeToString(wire), "authorised_requests_served_before": len(w.accepted)}
+				if w.replaySrc != "" {
+					desc["credential_replayed_from"] = w.replaySrc
+				}
 				before := w.snapshot()
 				m0, r0 := w.rec.marks()
 				var responded bool
@@ -1090,6 +1216,9 @@ func vf32Round(r *verifkit.Run, w *vf32World, inv []vf32RPC, rng *rand.Rand, rou
 				key := "C32|node|" + rpc.name + "|" + md
 				if authorised {
 					r.Count("node_authorised_calls", 1)
+					if target == w.srv { // whatever the outcome: the server has seen this credential under a correct signature
+						w.accepted = append(w.accepted, vf32Cred{rpc: rpc.name, key: bytes.Clone(sig.GetKey()), sig: bytes.Clone(sig.GetSign()), body: vf32Body(req)})
+					}
 					executed := (callErr == nil && responded) || len(diff) > 0 || len(muts) > 0 || len(reads) > 0
 					if !executed {
 						r.Inconclusive(fmt.Sprintf("positive control failed: correctly signed %s (%s) was not executed: %v", rpc.name, v.name, callErr))
@@ -1120,6 +1249,7 @@ func vf32Round(r *verifkit.Run, w *vf32World, inv []vf32RPC, rng *rand.Rand, rou
 					for _, p := range pending {
 						r.Distinct(p)
 					}
+					pending, controlled = nil, true
 					if round == 0 {
 						d := diff
 						if len(d) > 4 {
@@ -1155,9 +1285,24 @@ func vf32Round(r *verifkit.Run, w *vf32World, inv []vf32RPC, rng *rand.Rand, rou
 				if len(reads) > 0 {
 					r.Count("node_unauthorised_calls_that_read_a_dependency", 1)
 				}
+				if w.replaySrc != "" {
+					r.Count("node_replayed_credential_calls", 1)
+					if w.replaySrc != rpc.name {
+						r.Count("node_replayed_credential_calls_cross_rpc", 1)
+					}
+					r.Seen("node_replay_from_to", w.replaySrc+"->"+rpc.name)
+				}
+				if strings.HasSuffix(md, vf32AfterSuffix) {
+					r.Count("node_unauthorised_calls_right_after_accept_of_same_body", 1)
+				}
 				if !bad {
 					r.Count("node_unauthorised_rejected_clean", 1)
-					pending = append(pending, fmt.Sprintf("node|%s|%s|%s|%d", rpc.name, strings.SplitN(v.name, ",", 2)[0], md, len(w.admins)))
+					dk := fmt.Sprintf("node|%s|%s|%s|%d", rpc.name, strings.SplitN(v.name, ",", 2)[0], md, len(w.admins))
+					if controlled {
+						r.Distinct(dk)
+					} else {
+						pending = append(pending, dk)
+					}
 				}
 			}
 		}
